@@ -111,6 +111,34 @@ Fixpoint pubs (ops : list nop) : list event :=
   | _ :: r => pubs r
   end.
 
+(* subscriber i's queue has a free slot whenever something is published (a reader that may lag,
+   but never by more than the capacity) *)
+Fixpoint never_full (i : nat) (ops : list nop) (s : nstate) : bool :=
+  match ops with
+  | [] => true
+  | o :: r =>
+      (match o with
+       | NPub _ => match nth_error s i with Some c => (length (buf c) <? cap c)%nat | None => false end
+       | _ => true
+       end) && never_full i r (nstep s o)
+  end.
+
+(* correspondence for subscribers on the production connection path: n subscribers, the publishes
+   and reads in the order they happened, the stream each was handed.  Each queue always had room,
+   so each stream is the whole publication sequence — same events, same bytes, same order. *)
+Definition stream_history_ok (c : nat * list nop * list (list event)) : bool :=
+  let '(n, ops, obs) := c in
+  let s0 := nrun (repeat (NSub 16) n) [] in
+  let s := nrun ops s0 in
+  Nat.eqb (length obs) n &&
+  forallb (fun i => never_full i ops s0) (seq 0 n) &&
+  (fix go (chs : nstate) (obs : list (list event)) : bool :=
+     match chs, obs with
+     | [], [] => true
+     | ch :: chs', o :: obs' => events_eqb (delivered ch) o && events_eqb (pubs ops) o && go chs' obs'
+     | _, _ => false
+     end) s obs.
+
 (* the number of channel operations of one publish: what the caller waits for *)
 Definition publish_cost (e : event) (s : nstate) : nat := length (fst (publish e s)).
 
